@@ -88,12 +88,35 @@ class Gate(object):
 RES_CODE = {'ok': 0, 'perm': 1, 'temp': 2, 'junk': 3}
 
 
+class _Busy(object):
+    """proxy that counts calls in progress on the real storage backend (they may do real I/O)"""
+
+    def __init__(self, h, inner):
+        self._h = h
+        self._inner = inner
+
+    def __getattr__(self, name):
+        f = getattr(self._inner, name)
+        if not callable(f) or name in ('load',):
+            return f
+        h = self._h
+
+        def call(*a, **kw):
+            h.busy += 1
+            try:
+                return f(*a, **kw)
+            finally:
+                h.busy -= 1
+                h.activity += 1
+        return call
+
+
 class TraceStore(object):
     """QueueStorage wrapper: gates + model events."""
 
     def __init__(self, h, inner):
         self.h = h
-        self.inner = inner
+        self.inner = _Busy(h, inner)
 
     def write(self, envelope, timestamp):
         self.h.gate('write', None)
@@ -140,21 +163,19 @@ class TraceStore(object):
         if mid is None:
             mid = self.h.foreign_id(id)
         self.h.gate('get', mid)
-        try:
-            env, attempts = self.inner.get(id)
-        except KeyError:
-            self.h.emit((4, mid))
-            raise
-        env._vid = mid
         self.h.emit((4, mid))
+        # a missing message raises KeyError (dict, redis, cloud) or FileNotFoundError (disk);
+        # Queue._dequeue treats every exception alike as far as its bookkeeping goes
+        env, attempts = self.inner.get(id)
+        env._vid = mid
         return env, attempts
 
     def remove(self, id):
         mid = self.h.ids[id]
         self.h.gate('remove', mid)
-        self.inner.remove(id)
         self.h.removed.append(mid)
         self.h.emit((5, mid))
+        self.inner.remove(id)        # may raise on an already removed message (cloud): the greenlet dies
 
     def load(self):
         entries = self.h.gate('load', None)
@@ -247,6 +268,7 @@ class QH(object):
             pass
         self.clock = 0
         self.activity = 0
+        self.busy = 0
         self.trace = []         # model events, in the order the real code performed them
         self.marks = []         # (len(trace), snapshot) at each quiescent point
         self.gates = []
@@ -376,10 +398,10 @@ class QH(object):
     def settle(self):
         """run the hub until every greenlet is blocked on a gate"""
         quiet = 0
-        for _ in range(2000):
+        for _ in range(20000):
             a = self.activity
-            gevent.sleep(0)
-            if self.activity == a:
+            gevent.sleep(0.0005 if self.busy else 0)
+            if self.activity == a and not self.busy:
                 quiet += 1
                 if quiet >= 3:
                     break
@@ -531,6 +553,26 @@ def _enc_event(e):
 
 
 # ---------------------------------------------------------------- schedules
+class _UuidHub(object):
+    def uuid4(self):
+        import uuid
+        return uuid.uuid4()
+
+
+def make_backend(kind):
+    """real storage backend to put behind the gated store: (storage, cleanup)"""
+    if kind == 'disk':
+        import tempfile, shutil
+        from slimta.diskstorage import DiskStorage
+        d = tempfile.mkdtemp(prefix='vp-queue-')
+        return DiskStorage(d, d), (lambda: shutil.rmtree(d, ignore_errors=True))
+    if kind == 'cloud':
+        from slimta.cloudstorage import CloudStorage
+        from vp import storefakes
+        return CloudStorage(storefakes.FakeObjectStore(_UuidHub())), (lambda: None)
+    return DictStorage(), (lambda: None)
+
+
 class Run(object):
     """one schedule driven against the real queue; `choices` records every harness
     decision so that the run can be replayed exactly"""
@@ -540,7 +582,8 @@ class Run(object):
         self.cfg = cfg
         self.script = list(script) if script is not None else None
         self.choices = []
-        self.h = QH()
+        inner, self.cleanup = make_backend(cfg.get('backend', 'dict'))
+        self.h = QH(inner=inner)
         self.msgs = 0
         self.flush_epoch = 0
         self.fair = True           # no announcement raced an enqueue or a pending remove
@@ -648,6 +691,7 @@ class Run(object):
 
     def close(self):
         self.h.close()
+        self.cleanup()
 
 
 def oracle(ctx, run, label, props):
@@ -747,6 +791,7 @@ def explore(ctx, props, n_random, steps, cfgs):
             ctx.count('events', len(run.h.trace))
             ctx.count('attempts', len(run.h.attempts))
             ctx.count('runs-fair' if run.fair else 'runs-with-unfair-announcement')
+            ctx.count('backend:%s' % cfg.get('backend', 'dict'))
             for e in run.h.trace:
                 ctx.count('event-kind:%d' % e[0])
             for a in run.h.attempts:
